@@ -258,6 +258,11 @@ func runC18(ctx *Ctx) {
 	if ctx.Want(n + 900) {
 		defer c18AgentBinary(ctx, n+900)
 	}
+	for c := 0; c < ctx.N(12, 200); c++ {
+		if ctx.Want(n + 700 + c) {
+			c18Dialects(ctx, n+700+c, ctx.Sub(n+700+c))
+		}
+	}
 	for c := 0; c < ctx.N(6, 60); c++ {
 		if ctx.Want(n + 500 + c) {
 			e2eCase(ctx, n+500+c, ctx.Sub(n+500+c), "c18-")
